@@ -428,5 +428,6 @@ func C01Cases(tier string, seed int64) []Case {
 				Sym:  func(e *SymEnv) { c01Dkls23(e, pol, q3, []byte("dkls23 message")) }, MustReach: []string{"dkls23-done"}, NoConcreteValidation: true})
 		}
 	}
+	cases = append(cases, c01BoldyrevaCases(tier)...)
 	return cases
 }
